@@ -325,14 +325,27 @@ func R11() Rule {
 			}
 			var ctxs []ctxt
 			var problems []string
-			if sec, why := sectionOfClosure(c.P, s.fn); sec != nil {
-				ctxs = append(ctxs, ctxt{sec: sec})
-			} else if s.fn.Parent() == nil {
-				// named helper (finishCompose): all its callers must be inside a section
+			// the section(s) a function body runs in: the closure itself is a section, or — for a named
+			// helper (finishCompose, and the phases it is split into) — every call site lies in one
+			var sectionsOf func(f *ssa.Function, binds []binding, depth int)
+			sectionsOf = func(f *ssa.Function, binds []binding, depth int) {
+				sec, why := sectionOfClosure(c.P, f)
+				if sec != nil {
+					ctxs = append(ctxs, ctxt{sec: sec, binds: binds})
+					return
+				}
+				if f.Parent() != nil {
+					problems = append(problems, why)
+					return
+				}
+				if depth > 4 {
+					problems = append(problems, "helper nesting too deep below "+core.FuncName(f))
+					return
+				}
 				nCallers := 0
-				for _, f := range c.P.SrcFuncs(core.PkgGcsemu) {
-					for _, ci := range core.AllCalls(f) {
-						if ci.Static != s.fn {
+				for _, g := range c.P.SrcFuncs(core.PkgGcsemu) {
+					for _, ci := range core.AllCalls(g) {
+						if ci.Static != f {
 							continue
 						}
 						nCallers++
@@ -341,19 +354,18 @@ func R11() Rule {
 							problems = append(problems, "helper is started with go/defer")
 							continue
 						}
-						if sec2, why2 := sectionOfClosure(c.P, f); sec2 != nil {
-							ctxs = append(ctxs, ctxt{sec: sec2, binds: []binding{{callee: s.fn, call: call}}})
-						} else {
-							problems = append(problems, fmt.Sprintf("called from %s outside a critical section (%s)", core.FuncName(f), why2))
+						before := len(ctxs) + len(problems)
+						sectionsOf(g, append(append([]binding(nil), binds...), binding{callee: f, call: call}), depth+1)
+						if len(ctxs)+len(problems) == before {
+							problems = append(problems, fmt.Sprintf("called from %s outside a critical section", core.FuncName(g)))
 						}
 					}
 				}
 				if nCallers == 0 {
 					problems = append(problems, "mutator is in a function that is not a critical-section closure ("+why+") and has no callers")
 				}
-			} else {
-				problems = append(problems, why)
 			}
+			sectionsOf(s.fn, nil, 0)
 			if len(problems) > 0 || len(ctxs) == 0 {
 				c.Bad("R11", construct, pos, "Store.%s is called outside the per-object critical section: %v — concurrent requests on the same object can interleave between the precondition check and the mutation", s.m, problems)
 				continue
